@@ -459,3 +459,683 @@ Section Dump.
       cbn [i_kind i_id i_name]. destruct vt; try reflexivity. congruence.
   Qed.
 End Dump.
+
+(* ---- reading a candidate index back from its rendering ------------------------------------------------------- *)
+Lemma str_eqb_refl : forall s, str_eqb s s = true.
+Proof. intros. unfold str_eqb. induction s; simpl; auto. rewrite N.compare_refl. auto. Qed.
+Lemma lit_eqb_refl : forall l, lit_eqb l l = true.
+Proof. destruct l; simpl. apply str_eqb_refl. apply Z.eqb_refl. apply Z.eqb_refl. Qed.
+
+(* literal values distinguishable as Python values (1 == 1.0) *)
+Definition lits_distinct (lits : list lit) : Prop :=
+  forall i j li lj, nth_error lits i = Some li -> nth_error lits j = Some lj -> lit_eqb li lj = true -> i = j.
+
+Fixpoint last_match (l : lit) (i : nat) (ls : list lit) : option nat :=
+  match ls with
+  | [] => None
+  | x :: r => match last_match l (S i) r with Some j => Some j | None => if lit_eqb x l then Some i else None end
+  end.
+Lemma index_from_literal_go : forall lits l i0 found,
+  (fix go (i : nat) (ls : list lit) (found : option nat) : option nat :=
+     match ls with [] => found | x :: r => go (S i) r (if lit_eqb x l then Some i else found) end) i0 lits found =
+  match last_match l i0 lits with Some j => Some j | None => found end.
+Proof.
+  induction lits as [|x lits IH]; intros l i0 found; simpl; auto.
+  rewrite IH. destruct (last_match l (S i0) lits); auto. destruct (lit_eqb x l); auto.
+Qed.
+Lemma last_match_none : forall l ls i, (forall j lj, nth_error ls j = Some lj -> lit_eqb lj l = false) -> last_match l i ls = None.
+Proof.
+  induction ls as [|x ls IH]; intros i H; simpl; auto.
+  rewrite IH. rewrite (H 0 x eq_refl). reflexivity. intros j lj Hj. apply (H (S j) lj Hj).
+Qed.
+Lemma last_match_found : forall l ls i j,
+  nth_error ls j = Some l ->
+  (forall j' lj, nth_error ls j' = Some lj -> lit_eqb lj l = true -> j' = j) ->
+  last_match l i ls = Some (i + j).
+Proof.
+  induction ls as [|x ls IH]; intros i j Hj Hu. destruct j; discriminate.
+  destruct j.
+  - simpl in Hj. inv Hj. simpl. rewrite last_match_none.
+    + rewrite lit_eqb_refl, Nat.add_0_r. reflexivity.
+    + intros j lj Hj. destruct (lit_eqb lj l) eqn:E; auto. specialize (Hu (S j) lj Hj E). discriminate.
+  - simpl in Hj. simpl. rewrite (IH (S i) j Hj).
+    + f_equal. lia.
+    + intros j' lj Hj' He. specialize (Hu (S j') lj Hj' He). lia.
+Qed.
+
+Lemma index_from_literal_found : forall lits c l, lits_distinct lits -> nth_error lits c = Some l ->
+  index_from_literal lits l = Some c.
+Proof.
+  intros lits c l Hd Hc. unfold index_from_literal. rewrite index_from_literal_go.
+  rewrite (last_match_found l lits 0 c Hc). reflexivity.
+  intros j' lj Hj' He. eapply Hd; eauto.
+Qed.
+
+Definition ial_of (vt : value_type) : bool := match vt with VT_literal => true | _ => false end.
+Lemma choice_index_format : forall vt n lits c node, vt <> VT_dna -> c < n ->
+  (length lits = 0 \/ length lits = n) -> (vt = VT_literal -> lits_distinct lits) ->
+  choice_index (ial_of vt) n lits (format_candidate vt n lits c node) = Some c.
+Proof.
+  intros vt n lits c node Hvt Hc Hl Hd.
+  assert (Hin : (Z.of_nat c <? Z.of_nat n)%Z = true) by (apply Z.ltb_lt; lia).
+  assert (H0 : (0 <=? Z.of_nat c)%Z = true) by (apply Z.leb_le; lia).
+  assert (Hcn : (c <? n) = true) by (apply Nat.ltb_lt; auto).
+  destruct vt; try congruence; simpl.
+  - rewrite H0, Hin, Nat2Z.id. reflexivity.
+  - rewrite Nat.eqb_refl, Hcn. reflexivity.
+  - destruct (nth_error lits c) as [l|] eqn:E.
+    + specialize (Hd eq_refl). pose proof (index_from_literal_found lits c l Hd E) as Hi.
+      destruct l; simpl; auto.
+    + simpl. rewrite Nat.eqb_refl, Hcn. reflexivity.
+  - destruct (nth_error lits c) as [l|] eqn:E.
+    + simpl. rewrite Nat.eqb_refl, Hcn, E, lit_eqb_refl. reflexivity.
+    + simpl. rewrite Nat.eqb_refl, Hcn. reflexivity.
+Qed.
+
+(* ---- the active decisions have pairwise different addresses --------------------------------------------------- *)
+Lemma nodup_app_gen : forall A (l1 l2 : list A), NoDup l1 -> NoDup l2 -> (forall x, In x l1 -> ~ In x l2) -> NoDup (l1 ++ l2).
+Proof.
+  induction l1; intros l2 H1 H2 Hd; simpl; auto. inv H1. constructor.
+  - rewrite in_app_iff. intros [H|H]; auto. eapply Hd; eauto. simpl; auto.
+  - apply IHl1; auto. intros; apply Hd; simpl; auto.
+Qed.
+Lemma nodup_prefix_blocks : forall T (key : T -> addr) a (blocks : list (list T)) k,
+  (forall i b, nth_error blocks i = Some b ->
+     NoDup (map key b) /\ forall x, In x b -> prefix (a ++ [k + i]) (key x)) ->
+  NoDup (map key (concat blocks)).
+Proof.
+  induction blocks as [|b blocks IH]; intros k H; simpl. constructor.
+  destruct (H 0 b eq_refl) as [Hn Hp]. rewrite Nat.add_0_r in Hp.
+  rewrite map_app. apply nodup_app_gen; auto.
+  - apply (IH (S k)). intros i b' Hb'. replace (S k + i) with (k + S i) by lia. apply (H (S i) b' Hb').
+  - intros x Hx Hy. apply in_map_iff in Hx as [u [<- Hu]]. apply in_map_iff in Hy as [w [Ew Hw]].
+    apply in_concat in Hw as [b' [Hb' Hw]]. apply In_nth_error in Hb' as [i Hi].
+    destruct (H (S i) b' Hi) as [_ Hp']. apply Hp in Hu. apply Hp' in Hw. rewrite Ew in Hw.
+    eapply (prefix_conflict a k (k + S i)); eauto. lia.
+Qed.
+
+Lemma nth_error_mapi2 : forall A B C (g : nat -> A -> B -> C) es ds k i b,
+  nth_error (mapi2 g k es ds) i = Some b ->
+  exists e x, nth_error es i = Some e /\ nth_error ds i = Some x /\ b = g (k + i) e x.
+Proof.
+  induction es as [|e es IH]; intros [|x ds] k i b H; simpl in H; try (destruct i; discriminate).
+  destruct i; simpl in H.
+  - inv H. exists e, x. rewrite Nat.add_0_r. auto.
+  - apply IH in H as (e' & x' & H1 & H2 & H3). exists e', x'. repeat split; auto. subst. f_equal. lia.
+Qed.
+Lemma nth_error_mapi : forall A C (g : nat -> A -> C) l k i b,
+  nth_error (mapi g k l) i = Some b -> exists e, nth_error l i = Some e /\ b = g (k + i) e.
+Proof.
+  induction l as [|e l IH]; intros k i b H; simpl in H; try (destruct i; discriminate).
+  destruct i; simpl in H.
+  - inv H. exists e. rewrite Nat.add_0_r. auto.
+  - apply IH in H as (e' & H1 & H2). exists e'. split; auto. subst. f_equal. lia.
+Qed.
+
+Lemma acts_prefix_both :
+  (forall s a sd e, In e (acts s a sd) -> prefix a (fst e)) /\
+  (forall p a x e, In e (acts_p p a x) -> prefix a (fst e)).
+Proof.
+  apply dspec_dpoint_ind.
+  - intros es IH a [ds] e Hin. simpl in Hin. apply in_concat in Hin as [b [Hb Hin]].
+    apply In_nth_error in Hb as [i Hi]. apply nth_error_mapi2 in Hi as (p & x & Hp & Hx & ->). simpl in Hin.
+    eapply nth_error_Forall in IH; eauto. apply IH in Hin. eapply prefix_app; eauto.
+  - intros k cands dist srt nm lits IH a x e Hin. destruct x as [cs| |]; simpl in Hin; try contradiction.
+    assert (Hs : forall a' (cs0 : nat * sdna), prefix a a' ->
+              In e ((a', AChoice (fst cs0)) :: with_nth (fun sc => acts sc (a' ++ [fst cs0]) (snd cs0)) [] cands (fst cs0)) ->
+              prefix a (fst e)).
+    { intros a' [c sb] Hp [<-|Hin']. auto. simpl in Hin'. rewrite with_nth_nth_error in Hin'.
+      destruct (nth_error cands c) as [sc|] eqn:E; [|contradiction].
+      eapply nth_error_Forall in IH; eauto. apply IH in Hin'. destruct Hp as [t ->]. destruct Hin' as [u ->].
+      exists (t ++ [c] ++ u). rewrite !app_assoc. auto. }
+    destruct (k =? 1).
+    + destruct cs as [|cs0 [|]]; try contradiction. eapply Hs; eauto. apply prefix_refl.
+    + apply in_concat in Hin as [b [Hb Hin]]. apply In_nth_error in Hb as [i Hi].
+      apply nth_error_mapi in Hi as (cs0 & Hc & ->). simpl in Hin. eapply Hs; eauto. exists [i]. auto.
+  - intros lo hi nm a x e Hin. destruct x; simpl in Hin; try contradiction. destruct Hin as [<-|[]]. apply prefix_refl.
+  - intros nm a x e Hin. destruct x; simpl in Hin; try contradiction. destruct Hin as [<-|[]]. apply prefix_refl.
+Qed.
+
+Lemma acts_nodup_both :
+  (forall s a sd, NoDup (map fst (acts s a sd))) /\ (forall p a x, NoDup (map fst (acts_p p a x))).
+Proof.
+  apply dspec_dpoint_ind.
+  - intros es IH a [ds]. simpl. apply nodup_prefix_blocks with (a := a) (k := 0).
+    intros i b Hb. apply nth_error_mapi2 in Hb as (p & x & Hp & Hx & ->). simpl.
+    split. eapply nth_error_Forall in IH; eauto. intros e He. eapply (proj2 acts_prefix_both); eauto.
+  - intros k cands dist srt nm lits IH a x. destruct x as [cs| |]; simpl; try constructor.
+    assert (Hs : forall a' (cs0 : nat * sdna),
+              NoDup (map fst ((a', AChoice (fst cs0)) :: with_nth (fun sc => acts sc (a' ++ [fst cs0]) (snd cs0)) [] cands (fst cs0)))).
+    { intros a' [c sb]. simpl. rewrite with_nth_nth_error. destruct (nth_error cands c) as [sc|] eqn:E.
+      - constructor.
+        + intros Hin. apply in_map_iff in Hin as [[ea ev] [Ee He]]. apply (proj1 acts_prefix_both) in He.
+          simpl in Ee, He. subst ea. eapply prefix_longer_neq; eauto. discriminate.
+        + eapply nth_error_Forall in IH; eauto.
+      - simpl. repeat constructor. auto. }
+    destruct (k =? 1).
+    + destruct cs as [|cs0 [|]]; [constructor | apply Hs | constructor].
+    + apply nodup_prefix_blocks with (a := a) (k := 0). intros i b Hb.
+      apply nth_error_mapi in Hb as (cs0 & Hc & ->). simpl. split. apply Hs.
+      intros e [<-|He]. simpl. apply prefix_refl.
+      rewrite with_nth_nth_error in He. destruct (nth_error cands (fst cs0)) as [sc|] eqn:E; [|contradiction].
+      apply (proj1 acts_prefix_both) in He. eapply prefix_app; eauto.
+  - intros lo hi nm a x. destruct x; simpl; repeat constructor; auto.
+  - intros nm a x. destruct x; simpl; repeat constructor; auto.
+Qed.
+
+(* ---- dictionaries ------------------------------------------------------------------------------------------------ *)
+Lemma str_eqb_eq : forall s t, str_eqb s t = true <-> s = t.
+Proof.
+  intros. unfold str_eqb. split.
+  - destruct (str_cmp s t) eqn:E; try discriminate. intros _.
+    revert t E. induction s; destruct t; simpl; intros; try discriminate; auto.
+    destruct (N.compare a n) eqn:En; try discriminate. apply N.compare_eq in En. subst. f_equal. auto.
+  - intros ->. apply str_eqb_refl.
+Qed.
+Lemma ikey_eqb_eq : forall a b, ikey_eqb a b = true <-> a = b.
+Proof.
+  destruct a, b; simpl; split; intros H; try discriminate; try (inv H; fail).
+  - apply str_eqb_eq in H. subst; auto.
+  - inv H. apply str_eqb_refl.
+  - apply Nat.eqb_eq in H. subst; auto.
+  - inv H. apply Nat.eqb_refl.
+  - apply andb_true_iff in H as [H1 H2]. apply Nat.eqb_eq in H1, H2. subst; auto.
+  - inv H. rewrite !Nat.eqb_refl. auto.
+Qed.
+Lemma did_eqb_eq : forall a b, did_eqb a b = true <-> a = b.
+Proof.
+  induction a; destruct b; simpl; split; intros H; try discriminate; auto; try (inv H; fail).
+  - apply andb_true_iff in H as [H1 H2]. apply ikey_eqb_eq in H1. apply IHa in H2. subst; auto.
+  - inv H. apply andb_true_iff; split. apply ikey_eqb_eq; auto. apply IHa; auto.
+Qed.
+Lemma dkey_eqb_eq : forall a b, dkey_eqb a b = true <-> a = b.
+Proof.
+  destruct a, b; simpl; split; intros H; try discriminate; try (inv H; fail).
+  - apply did_eqb_eq in H. subst; auto.
+  - inv H. apply did_eqb_eq; auto.
+  - apply str_eqb_eq in H. subst; auto.
+  - inv H. apply str_eqb_refl.
+  - unfold addr_eqb in H. destruct (list_eq_dec Nat.eq_dec a a0); [subst; auto|discriminate].
+  - inv H. unfold addr_eqb. destruct (list_eq_dec Nat.eq_dec a0 a0); auto.
+Qed.
+Lemma dkey_eqb_refl : forall k, dkey_eqb k k = true. Proof. intros. apply dkey_eqb_eq. auto. Qed.
+Lemma dkey_eqb_neq : forall a b, a <> b -> dkey_eqb a b = false.
+Proof. intros. destruct (dkey_eqb a b) eqn:E; auto. apply dkey_eqb_eq in E. contradiction. Qed.
+
+Lemma dget_dset_same : forall d k v, dget (dset d k v) k = Some v.
+Proof.
+  induction d as [|[k' v'] d IH]; intros; simpl. rewrite dkey_eqb_refl. auto.
+  destruct (dkey_eqb k' k) eqn:E; simpl; rewrite E; auto.
+Qed.
+Lemma dget_dset_other : forall d k k' v, k <> k' -> dget (dset d k v) k' = dget d k'.
+Proof.
+  induction d as [|[k0 v0] d IH]; intros k k' v Hne; simpl.
+  - rewrite dkey_eqb_neq; auto.
+  - destruct (dkey_eqb k0 k) eqn:E; simpl.
+    + apply dkey_eqb_eq in E. subst k0. rewrite dkey_eqb_neq; auto.
+    + destruct (dkey_eqb k0 k'); auto.
+Qed.
+Lemma dget_dput_fresh : forall d k x, dget d k = None -> dget (dput d k x) k = Some (DS x).
+Proof. intros. unfold dput. rewrite H. apply dget_dset_same. Qed.
+Lemma dget_dput_other : forall d k k' x, k <> k' -> dget (dput d k x) k' = dget d k'.
+Proof. intros. unfold dput. destruct (dget d k) as [[|]|]; apply dget_dset_other; auto. Qed.
+
+(* a fold of puts under pairwise different keys stores every entry as a single value *)
+Lemma puts_distinct : forall (es : list (dkey * dleaf)) d,
+  NoDup (map fst es) -> (forall e, In e es -> dget d (fst e) = None) ->
+  forall e, In e es -> dget (fold_left (fun acc e0 => dput acc (fst e0) (snd e0)) es d) (fst e) = Some (DS (snd e)).
+Proof.
+  induction es as [|e0 es IH]; intros d Hn Hf e Hin. inv Hin.
+  inv Hn. simpl. destruct Hin as [->|Hin].
+  - (* later puts use other keys *)
+    assert (G : forall l dd, ~ In (fst e) (map fst l) ->
+              dget (fold_left (fun acc e1 => dput acc (fst e1) (snd e1)) l dd) (fst e) = dget dd (fst e)).
+    { induction l as [|e1 l IHl]; intros dd Hni; simpl; auto. rewrite IHl.
+      apply dget_dput_other. intros E. apply Hni. simpl. auto. intros H; apply Hni; simpl; auto. }
+    rewrite G; auto. apply dget_dput_fresh. apply Hf. simpl; auto.
+  - apply IH; auto. intros e1 He1. rewrite dget_dput_other. apply Hf; simpl; auto.
+    intros E. apply H1. rewrite E. apply in_map; auto.
+Qed.
+
+(* ---- from_dict reads the view back ------------------------------------------------------------------------------- *)
+Section Loops.
+  Variable ial : bool.
+  Section SpaceLoop.
+    Variables (a : addr) (pid : did).
+    Fixpoint space_loop (i : nat) (es : list dpoint) (d : dict) : option (list dna * dict) :=
+      match es with
+      | [] => Some ([], d)
+      | e :: r => match make_dna_p ial e (a ++ [i]) pid d with
+                  | Some (x, d1) => match space_loop (S i) r d1 with Some (xs, d2) => Some (x :: xs, d2) | None => None end
+                  | None => None end
+      end.
+  End SpaceLoop.
+  Section ChoiceLoop.
+    Variables (k : nat) (cands : list dspec) (name : option str) (lits : list lit) (a : addr) (id : did).
+    Fixpoint choice_loop (idxs : list nat) (d : dict) : option (list dna * dict) :=
+      let n := length cands in
+      let multi := negb (k =? 1) in
+      match idxs with
+      | [] => Some ([], d)
+      | i :: r =>
+          let a' := if multi then a ++ [i] else a in
+          let id' := if multi then id ++ [KIdx i] else id in
+          let (v0, d0) := get_decision id' a' name d in
+          let (v1, d1) := match v0 with
+                          | Some v => (Some v, d0)
+                          | None => if multi then
+                                      match get_decision id a name d0 with
+                                      | (Some (DL l), d') => (if length l =? k then match nth_error l i with Some x => Some (DS x) | None => None end else None, d')
+                                      | (Some (DS _), d') => (None, d')
+                                      | (None, d') => (None, d') end
+                                    else (None, d0)
+                          end in
+          match v1 with
+          | Some (DS (LfDna sub)) =>
+              match choice_loop r d1 with Some (xs, d2) => Some (sub :: xs, d2) | None => None end
+          | Some (DS x) =>
+              match choice_index ial n lits x with
+              | None => None
+              | Some c =>
+                  match with_nth (fun cand => make_dna ial cand (a' ++ [c]) (id' ++ [KCond c n]) d1) None cands c with
+                  | Some (sub, d2) =>
+                      match choice_loop r d2 with
+                      | Some (xs, d3) => Some (mk (VInt (Z.of_nat c)) [sub] :: xs, d3)
+                      | None => None end
+                  | None => None end
+              end
+          | _ => None
+          end
+      end.
+  End ChoiceLoop.
+End Loops.
+Lemma make_dna_space : forall ial es a pid d,
+  make_dna ial (Space es) a pid d =
+  match space_loop ial a pid 0 es d with Some (cs, d') => Some (mk VNone cs, d') | None => None end.
+Proof. reflexivity. Qed.
+Lemma make_dna_p_choices : forall ial k cands dist srt loc name lits a pid d,
+  make_dna_p ial (Choices k cands dist srt (loc, name) lits) a pid d =
+  match choice_loop ial k cands name lits a (pid ++ loc) (seq 0 k) d with
+  | Some (cs, d') => Some (mk VNone cs, d') | None => None end.
+Proof. reflexivity. Qed.
+
+(* literal values of every choice of the specification *)
+Fixpoint all_lits (s : dspec) : list (list lit) := match s with Space es => concat (map all_lits_p es) end
+with all_lits_p (p : dpoint) : list (list lit) :=
+  match p with Choices _ cands _ _ _ lits => lits :: concat (map all_lits cands) | _ => [] end.
+
+Definition key1 (infos : list dpinfo) (e : addr * aval) : dkey :=
+  match info_at infos (fst e) with Some i => DKId (i_id i) | None => DKId [] end.
+Definition leaf1 (infos : list dpinfo) (vt : value_type) (e : addr * aval) : dleaf :=
+  match info_at infos (fst e) with
+  | Some i => match snd e, i_kind i with
+              | AChoice c, PKChoice n lits => format_candidate vt n lits c (D VNone [])
+              | AFlt f, _ => LfV (VFlt f)
+              | AStr s, _ => LfV (VStr s)
+              | _, _ => LfNone end
+  | None => LfNone
+  end.
+Definition carry (infos : list dpinfo) (vt : value_type) (dd : dict) (l : list (addr * aval)) : Prop :=
+  forall e, In e l -> dget dd (key1 infos e) = Some (DS (leaf1 infos vt e)).
+
+Lemma get_decision_found : forall id a name dd x, dget dd (DKId id) = Some (DS x) -> leaf_is_none x = false ->
+  get_decision id a name dd = (Some (DS x), dd).
+Proof. intros. unfold get_decision. rewrite H. simpl. rewrite H0. reflexivity. Qed.
+Lemma format_candidate_not_none : forall vt n lits c node, leaf_is_none (format_candidate vt n lits c node) = false.
+Proof. intros. destruct vt; simpl; auto; destruct (nth_error lits c); auto. Qed.
+
+Lemma choice_loop_cons : forall ial k cands name lits a id i r d,
+  choice_loop ial k cands name lits a id (i :: r) d =
+  let n := length cands in
+  let multi := negb (k =? 1) in
+  let a' := if multi then a ++ [i] else a in
+  let id' := if multi then id ++ [KIdx i] else id in
+  let (v0, d0) := get_decision id' a' name d in
+  let (v1, d1) := match v0 with
+                  | Some v => (Some v, d0)
+                  | None => if multi then
+                              match get_decision id a name d0 with
+                              | (Some (DL l), d') => (if length l =? k then match nth_error l i with Some x => Some (DS x) | None => None end else None, d')
+                              | (Some (DS _), d') => (None, d')
+                              | (None, d') => (None, d') end
+                            else (None, d0)
+                  end in
+  match v1 with
+  | Some (DS (LfDna sub)) =>
+      match choice_loop ial k cands name lits a id r d1 with Some (xs, d2) => Some (sub :: xs, d2) | None => None end
+  | Some (DS x) =>
+      match choice_index ial n lits x with
+      | None => None
+      | Some c =>
+          match with_nth (fun cand => make_dna ial cand (a' ++ [c]) (id' ++ [KCond c n]) d1) None cands c with
+          | Some (sub, d2) =>
+              match choice_loop ial k cands name lits a id r d2 with
+              | Some (xs, d3) => Some (mk (VInt (Z.of_nat c)) [sub] :: xs, d3)
+              | None => None end
+          | None => None end
+      end
+  | _ => None
+  end.
+Proof. reflexivity. Qed.
+
+Lemma mapi2_nth_in : forall A B C (g : nat -> A -> B -> C) es ds k j e x,
+  nth_error es j = Some e -> nth_error ds j = Some x -> In (g (k + j) e x) (mapi2 g k es ds).
+Proof.
+  induction es as [|e1 es IH]; intros [|x1 ds] k [|j] e x He Hx; simpl in *; try discriminate.
+  - inv He; inv Hx. left. rewrite Nat.add_0_r. reflexivity.
+  - right. replace (k + S j) with (S k + j) by lia. eapply IH; eauto.
+Qed.
+Lemma mapi_nth_in : forall A C (g : nat -> A -> C) l k j e,
+  nth_error l j = Some e -> In (g (k + j) e) (mapi g k l).
+Proof.
+  induction l as [|e1 l IH]; intros k [|j] e He; simpl in *; try discriminate.
+  - inv He. left. rewrite Nat.add_0_r. reflexivity.
+  - right. replace (k + S j) with (S k + j) by lia. eapply IH; eauto.
+Qed.
+
+Section ReadBack.
+  Variables (infos : list dpinfo) (vt : value_type).
+  Hypothesis Hvt : vt <> VT_dna.
+  Notation ial := (ial_of vt).
+
+  Lemma readback_both :
+    (forall s, wf s = true -> forall sd a pid dd, valid s sd = true -> agree infos (dps s a pid) a ->
+       carry infos vt dd (acts s a sd) -> (vt = VT_literal -> Forall lits_distinct (all_lits s)) ->
+       make_dna ial s a pid dd = Some (normalize sd, dd)) /\
+    (forall p, wf_p p = true -> forall x a pid dd, valid_p p x = true -> agree infos (dps_p p a pid) a ->
+       carry infos vt dd (acts_p p a x) -> (vt = VT_literal -> Forall lits_distinct (all_lits_p p)) ->
+       make_dna_p ial p a pid dd = Some (norm_p x, dd)).
+  Proof.
+    apply dspec_dpoint_ind.
+    - (* Space *)
+      intros es IH Hwf [ds] a pid dd Hv Hag Hc Hl. simpl in Hwf. simpl in Hv. apply forallb2_Forall2 in Hv.
+      rewrite make_dna_space.
+      assert (Hel : forall j e, nth_error es j = Some e -> agree infos (dps_p e (a ++ [j]) pid) (a ++ [j])).
+      { intros j e He. eapply agree_trans; [exact Hag | exists [j]; reflexivity |].
+        simpl. apply (agree_mapi _ (fun i e0 => dps_p e0 (a ++ [i]) pid) a es 0 j e); auto.
+        intros i e0 He0 x Hx. simpl in *. eapply (proj2 dps_prefix_both); eauto. }
+      assert (G : forall es' ds' i, Forall2 (fun e x => valid_p e x = true) es' ds' ->
+                  (forall j e x, nth_error es' j = Some e -> nth_error ds' j = Some x ->
+                                 make_dna_p ial e (a ++ [i + j]) pid dd = Some (norm_p x, dd)) ->
+                  space_loop ial a pid i es' dd = Some (map norm_p ds', dd)).
+      { induction es' as [|e es' IHe]; intros ds' i Hv' Hm; inversion Hv' as [|? x ? ds'' Hx Hds]; subst; simpl. reflexivity.
+        pose proof (Hm 0 e x eq_refl eq_refl) as H0. rewrite Nat.add_0_r in H0. rewrite H0.
+        rewrite (IHe ds'' (S i) Hds). reflexivity.
+        intros j e' x' He' Hx'. replace (S i + j) with (i + S j) by lia. apply (Hm (S j) e' x'); auto. }
+      rewrite (G es ds 0 Hv). reflexivity.
+      intros j e x He Hx. simpl.
+      rewrite Forall_forall in IH. rewrite forallb_forall in Hwf.
+      apply (IH e (nth_error_In _ _ He) (Hwf e (nth_error_In _ _ He)) x (a ++ [j]) pid dd); auto.
+      + clear - Hv He Hx. revert j He Hx. induction Hv; intros [|j] He Hx; simpl in *; try discriminate.
+        inv He; inv Hx; auto. eapply IHHv; eauto.
+      + intros e0 He0. apply Hc. simpl. apply in_concat. exists (acts_p e (a ++ [j]) x). split; auto.
+        apply (mapi2_nth_in _ _ _ (fun i e1 x1 => acts_p e1 (a ++ [i]) x1) es ds 0 j e x He Hx).
+      + intros E. specialize (Hl E). simpl in Hl. rewrite Forall_forall in *. intros l Hin. apply Hl.
+        apply in_concat. exists (all_lits_p e). split; auto. apply in_map. eapply nth_error_In; eauto.
+    - (* Choices *)
+      intros k cands dist srt [loc name] lits IH Hwf x a pid dd Hv Hag Hc Hl.
+      pose proof (shape_p _ x Hwf Hv) as Hs. cbv beta iota in Hs.
+      pose proof Hwf as Hwf0. apply wf_p_choices in Hwf as (Hk & Hn & Hdk & Hwc).
+      assert (Hlw : length lits = 0 \/ length lits = length cands).
+      { change (((1 <=? k) && (1 <=? length cands) && (negb dist || (k <=? length cands)) &&
+                 ((length lits =? 0) || (length lits =? length cands)) && forallb wf cands) = true) in Hwf0.
+        apply andb_true_iff in Hwf0 as [Hw _]. apply andb_true_iff in Hw as [_ Hw].
+        apply orb_true_iff in Hw as [Hw|Hw]; apply Nat.eqb_eq in Hw; auto. }
+      rewrite dps_p_choices_unfold in Hag. rewrite make_dna_p_choices.
+      (* one step of the loop *)
+      assert (Hstep : forall a' id' sub c sb,
+                c < length cands -> with_nth (fun s => valid s sb) false cands c = true ->
+                agree infos (single_block cands name lits a' id' sub) a' ->
+                carry infos vt dd ((a', AChoice c) :: with_nth (fun sc => acts sc (a' ++ [c]) sb) [] cands c) ->
+                get_decision id' a' name dd = (Some (DS (format_candidate vt (length cands) lits c (D VNone []))), dd) /\
+                with_nth (fun cand => make_dna ial cand (a' ++ [c]) (id' ++ [KCond c (length cands)]) dd) None cands c = Some (normalize sb, dd)).
+      { intros a' id' sub c sb Hcn Hvs Ha' Hc'. split.
+        - apply get_decision_found; [|apply format_candidate_not_none].
+          specialize (Hc' (a', AChoice c) (or_introl eq_refl)). unfold key1, leaf1 in Hc'. cbn [fst snd] in Hc'.
+          rewrite (Ha' a' (prefix_refl a')) in Hc'. unfold single_block in Hc'. rewrite info_at_head in Hc'.
+          cbn [i_id i_kind] in Hc'. exact Hc'.
+        - rewrite with_nth_nth_error in *. destruct (nth_error cands c) as [sc|] eqn:E; [|discriminate].
+          rewrite forallb_forall in Hwc. eapply nth_error_Forall in IH; eauto.
+          apply (IH (Hwc sc (nth_error_In _ _ E))); auto.
+          + eapply agree_single_cand; eauto.
+          + intros e He. apply Hc'. right. exact He.
+          + intros Ev. specialize (Hl Ev). simpl in Hl. apply Forall_cons_iff in Hl as [_ Hl].
+            rewrite Forall_forall in *. intros l Hin. apply Hl. apply in_concat. exists (all_lits sc). split; auto.
+            apply in_map. eapply nth_error_In; eauto. }
+      assert (Hci : forall c, c < length cands ->
+                choice_index ial (length cands) lits (format_candidate vt (length cands) lits c (D VNone [])) = Some c).
+      { intros c Hcn. apply choice_index_format; auto. intros Ev. specialize (Hl Ev). simpl in Hl.
+        apply Forall_cons_iff in Hl as [Hl _]. exact Hl. }
+      assert (Hnd : forall c, match format_candidate vt (length cands) lits c (D VNone []) with LfDna _ => False | _ => True end).
+      { intros c. destruct vt; simpl; auto; try congruence; destruct (nth_error lits c); auto. }
+      destruct (k =? 1) eqn:Ek.
+      + destruct Hs as (c & sb & -> & Hn1). rewrite Hn1.
+        apply Nat.eqb_eq in Ek. subst k.
+        apply valid_p_choices in Hv as [_ [[_ Hbd] Hf]].
+        apply Forall_cons_iff in Hbd as [Hbd _]. apply Forall_cons_iff in Hf as [Hf _]. simpl in Hbd, Hf.
+        change (acts_p (Choices 1 cands dist srt (loc, name) lits) a (PChoices [(c, sb)])) with
+          ((a, AChoice c) :: with_nth (fun sc => acts sc (a ++ [c]) sb) [] cands c) in Hc.
+        destruct (Hstep a (pid ++ loc) None c sb Hbd Hf Hag Hc) as [Hg Hm].
+        simpl seq. rewrite choice_loop_cons. simpl negb. cbv zeta. cbv iota. rewrite Hg.
+        specialize (Hnd c). specialize (Hci c Hbd).
+        destruct (format_candidate vt (length cands) lits c (D VNone [])) eqn:Ef; try contradiction;
+          rewrite Hci, Hm; reflexivity.
+      + destruct Hs as (cs & -> & Hlen & Hn2). rewrite Hn2.
+        apply valid_p_choices in Hv as [_ [[_ Hbd] Hf]].
+        change (acts_p (Choices k cands dist srt (loc, name) lits) a (PChoices cs)) with
+          (if k =? 1 then match cs with [cs0] => (a, AChoice (fst cs0)) :: with_nth (fun sc => acts sc (a ++ [fst cs0]) (snd cs0)) [] cands (fst cs0) | _ => [] end else
+             concat (mapi (fun i (cs0 : nat * sdna) => (a ++ [i], AChoice (fst cs0)) :: with_nth (fun sc => acts sc ((a ++ [i]) ++ [fst cs0]) (snd cs0)) [] cands (fst cs0)) 0 cs)) in Hc.
+        rewrite Ek in Hc.
+        assert (G : forall (l : list (nat * sdna)) s0, s0 + length l = k ->
+                  (forall j cs0, nth_error l j = Some cs0 ->
+                      fst cs0 < length cands /\ with_nth (fun s => valid s (snd cs0)) false cands (fst cs0) = true /\
+                      carry infos vt dd ((a ++ [s0 + j], AChoice (fst cs0)) :: with_nth (fun sc => acts sc ((a ++ [s0 + j]) ++ [fst cs0]) (snd cs0)) [] cands (fst cs0))) ->
+                  choice_loop ial k cands name lits a (pid ++ loc) (seq s0 (length l)) dd =
+                  Some (map (fun cs0 => mk (VInt (Z.of_nat (fst cs0))) [normalize (snd cs0)]) l, dd)).
+        { induction l as [|[c sb] l IHl]; intros s0 Hs0 Hall. reflexivity.
+          destruct (Hall 0 (c, sb) eq_refl) as (Hcn & Hvs & Hcar). cbn [fst snd] in *. rewrite Nat.add_0_r in Hcar.
+          assert (Hs0k : s0 < k) by (simpl in Hs0; lia).
+          assert (Hblk : agree infos (single_block cands name lits (a ++ [s0]) ((pid ++ loc) ++ [KIdx s0]) (Some (s0, a, pid ++ loc))) (a ++ [s0])).
+          { eapply agree_trans; [exact Hag | exists [s0]; reflexivity |].
+            rewrite <- app_assoc.
+            apply (agree_map_seq (fun i => single_block cands name lits (a ++ [i]) (pid ++ loc ++ [KIdx i]) (Some (i, a, pid ++ loc))) a k 0 s0).
+            - intros i Hi y Hy. eapply single_block_prefix; eauto.
+            - lia. }
+          destruct (Hstep (a ++ [s0]) ((pid ++ loc) ++ [KIdx s0]) (Some (s0, a, pid ++ loc)) c sb Hcn Hvs Hblk Hcar) as [Hg Hm].
+          simpl length. simpl seq.
+          rewrite choice_loop_cons.
+          cbv zeta. rewrite Ek. simpl negb. cbv iota. rewrite Hg.
+          specialize (Hnd c). specialize (Hci c Hcn).
+          assert (IHl' : choice_loop ial k cands name lits a (pid ++ loc) (seq (S s0) (length l)) dd =
+                         Some (map (fun cs0 => mk (VInt (Z.of_nat (fst cs0))) [normalize (snd cs0)]) l, dd)).
+          { apply IHl. simpl in Hs0. lia. intros j cs0 Hj. replace (S s0 + j) with (s0 + S j) by lia. apply (Hall (S j) cs0 Hj). }
+          destruct (format_candidate vt (length cands) lits c (D VNone [])) eqn:Ef; try contradiction;
+            rewrite Hci, Hm, IHl'; reflexivity. }
+        replace (seq 0 k) with (seq 0 (length cs)) by (rewrite Hlen; reflexivity).
+        rewrite (G cs 0); [rewrite mk_none_many; [reflexivity | rewrite map_length; apply Nat.eqb_neq in Ek; lia] | simpl; auto |].
+        intros j [c sb] Hj. cbn [fst snd]. rewrite Forall_forall in Hbd, Hf.
+        assert (Hin : In (c, sb) cs) by (eapply nth_error_In; eauto).
+        split. apply (Hbd c). apply in_map_iff. exists (c, sb); auto.
+        split. apply (Hf (c, sb)); auto.
+        intros e He. apply Hc. apply in_concat.
+        exists ((a ++ [j], AChoice c) :: with_nth (fun sc => acts sc ((a ++ [j]) ++ [c]) sb) [] cands c). split; auto.
+        apply (mapi_nth_in _ _ (fun i (cs0 : nat * sdna) => (a ++ [i], AChoice (fst cs0)) :: with_nth (fun sc => acts sc ((a ++ [i]) ++ [fst cs0]) (snd cs0)) [] cands (fst cs0)) cs 0 j (c, sb) Hj).
+    - (* Float *)
+      intros lo hi [loc name] Hwf x a pid dd Hv Hag Hc Hl. destruct x; try discriminate.
+      specialize (Hc (a, AFlt f) (or_introl eq_refl)). unfold key1, leaf1 in Hc. cbn [fst snd] in Hc.
+      rewrite (Hag a (prefix_refl a)) in Hc. simpl dps_p in Hc. rewrite info_at_head in Hc. cbn [i_id i_kind] in Hc.
+      simpl make_dna_p. rewrite (get_decision_found _ _ _ _ _ Hc eq_refl). simpl in Hv. rewrite Hv. reflexivity.
+    - intros [loc name] Hwf x a pid dd Hv Hag Hc Hl. destruct x; try discriminate.
+      specialize (Hc (a, AStr s) (or_introl eq_refl)). unfold key1, leaf1 in Hc. cbn [fst snd] in Hc.
+      rewrite (Hag a (prefix_refl a)) in Hc. simpl dps_p in Hc. rewrite info_at_head in Hc. cbn [i_id i_kind] in Hc.
+      simpl make_dna_p. rewrite (get_decision_found _ _ _ _ _ Hc eq_refl). reflexivity.
+  Qed.
+End ReadBack.
+
+(* every active decision has its decision point among the infos, of the right kind *)
+Lemma acts_kinded_both : forall infos,
+  (forall s, wf s = true -> forall sd a pid e, valid s sd = true -> agree infos (dps s a pid) a -> In e (acts s a sd) ->
+     exists i, info_at infos (fst e) = Some i /\ In i (dps s a pid) /\ i_addr i = fst e /\
+               (forall c, snd e = AChoice c -> exists n lits, i_kind i = PKChoice n lits)) /\
+  (forall p, wf_p p = true -> forall x a pid e, valid_p p x = true -> agree infos (dps_p p a pid) a -> In e (acts_p p a x) ->
+     exists i, info_at infos (fst e) = Some i /\ In i (dps_p p a pid) /\ i_addr i = fst e /\
+               (forall c, snd e = AChoice c -> exists n lits, i_kind i = PKChoice n lits)).
+Proof.
+  intros infos. apply dspec_dpoint_ind.
+  - intros es IH Hwf [ds] a pid e0 Hv Hag Hin. simpl in Hwf, Hv. apply forallb2_Forall2 in Hv. simpl in Hin.
+    apply in_concat in Hin as [b [Hb Hin]]. apply In_nth_error in Hb as [j Hj].
+    apply nth_error_mapi2 in Hj as (p & x & Hp & Hx & ->). simpl in Hin.
+    assert (Hel : agree infos (dps_p p (a ++ [j]) pid) (a ++ [j])).
+    { eapply agree_trans; [exact Hag | exists [j]; reflexivity |].
+      simpl. apply (agree_mapi _ (fun i e1 => dps_p e1 (a ++ [i]) pid) a es 0 j p); auto.
+      intros i e1 He1 y Hy. simpl in *. eapply (proj2 dps_prefix_both); eauto. }
+    rewrite Forall_forall in IH. rewrite forallb_forall in Hwf.
+    assert (Hvx : valid_p p x = true).
+    { clear - Hv Hp Hx. revert j Hp Hx. induction Hv; intros [|j] Hp Hx; simpl in *; try discriminate. inv Hp; inv Hx; auto. eapply IHHv; eauto. }
+    destruct (IH p (nth_error_In _ _ Hp) (Hwf p (nth_error_In _ _ Hp)) x (a ++ [j]) pid e0 Hvx Hel Hin) as (i & H1 & H2 & H3 & H4).
+    exists i. repeat split; auto. simpl. apply in_concat_mapi. exists j, p. split; auto.
+  - intros k cands dist srt [loc name] lits IH Hwf x a pid e0 Hv Hag Hin.
+    pose proof Hwf as Hwf0. apply wf_p_choices in Hwf as (Hk & Hn & Hdk & Hwc).
+    destruct x as [cs| |]; try discriminate.
+    apply valid_p_choices in Hv as [Hlen [[_ Hbd] Hf]].
+    rewrite dps_p_choices_unfold in *.
+    assert (Hs : forall a' id' sub (cs0 : nat * sdna), In cs0 cs ->
+              agree infos (single_block cands name lits a' id' sub) a' ->
+              In e0 ((a', AChoice (fst cs0)) :: with_nth (fun sc => acts sc (a' ++ [fst cs0]) (snd cs0)) [] cands (fst cs0)) ->
+              exists i, info_at infos (fst e0) = Some i /\ In i (single_block cands name lits a' id' sub) /\ i_addr i = fst e0 /\
+                        (forall c, snd e0 = AChoice c -> exists n lits0, i_kind i = PKChoice n lits0)).
+    { intros a' id' sub [c sb] Hcs Ha' [<-|Hin'].
+      - cbn [fst snd]. rewrite (Ha' a' (prefix_refl a')). unfold single_block. rewrite info_at_head.
+        eexists. split; [reflexivity|]. split; [left; reflexivity|]. split; [reflexivity|]. intros; simpl; eauto.
+      - cbn [fst snd] in Hin'. rewrite with_nth_nth_error in Hin'. destruct (nth_error cands c) as [sc|] eqn:E; [|contradiction].
+        rewrite forallb_forall in Hwc. rewrite Forall_forall in Hf. specialize (Hf (c, sb) Hcs). simpl in Hf.
+        rewrite with_nth_nth_error, E in Hf. eapply nth_error_Forall in IH; eauto.
+        destruct (IH (Hwc sc (nth_error_In _ _ E)) sb (a' ++ [c]) (id' ++ [KCond c (length cands)]) e0 Hf
+                     (agree_single_cand infos cands name lits a' id' sub c sc Ha' E) Hin') as (i & H1 & H2 & H3 & H4).
+        exists i. repeat split; auto. right. apply in_concat_mapi. exists c, sc. split; auto. }
+    simpl in Hin. destruct (k =? 1) eqn:Ek.
+    + destruct cs as [|cs0 [|]]; try contradiction. eapply Hs; eauto. simpl; auto.
+    + apply in_concat in Hin as [b [Hb Hin]]. apply In_nth_error in Hb as [j Hj].
+      apply nth_error_mapi in Hj as (cs0 & Hc & ->). simpl in Hin.
+      assert (Hjk : j < k). { rewrite <- Hlen. apply nth_error_Some. rewrite Hc. discriminate. }
+      assert (Hblk : agree infos (single_block cands name lits (a ++ [j]) (pid ++ loc ++ [KIdx j]) (Some (j, a, pid ++ loc))) (a ++ [j])).
+      { eapply agree_trans; [exact Hag | exists [j]; reflexivity |].
+        apply (agree_map_seq (fun i => single_block cands name lits (a ++ [i]) (pid ++ loc ++ [KIdx i]) (Some (i, a, pid ++ loc))) a k 0 j).
+        - intros i Hi y Hy. eapply single_block_prefix; eauto.
+        - lia. }
+      destruct (Hs (a ++ [j]) (pid ++ loc ++ [KIdx j]) (Some (j, a, pid ++ loc)) cs0 (nth_error_In _ _ Hc) Hblk Hin) as (i & H1 & H2 & H3 & H4).
+      exists i. repeat split; auto. apply in_concat. eexists. split; [|exact H2]. apply in_map_iff. exists j. split; auto. apply in_seq. lia.
+  - intros lo hi [loc name] Hwf x a pid e0 Hv Hag Hin. destruct x; try discriminate. destruct Hin as [<-|[]].
+    cbn [fst snd]. rewrite (Hag a (prefix_refl a)). simpl dps_p. rewrite info_at_head.
+    eexists. split; [reflexivity|]. split; [left; reflexivity|]. split; [reflexivity|]. intros c E; discriminate.
+  - intros [loc name] Hwf x a pid e0 Hv Hag Hin. destruct x; try discriminate. destruct Hin as [<-|[]].
+    cbn [fst snd]. rewrite (Hag a (prefix_refl a)). simpl dps_p. rewrite info_at_head.
+    eexists. split; [reflexivity|]. split; [left; reflexivity|]. split; [reflexivity|]. intros c E; discriminate.
+Qed.
+
+(* ids of the decision points are pairwise different (what unique locations give) *)
+Definition ids_unique (s : dspec) : Prop := NoDup (map i_id (decision_points s)).
+
+Lemma root_agree : forall s, agree (decision_points s) (dps s [] []) [].
+Proof. intros s a' _. reflexivity. Qed.
+Lemma root_addr_none : forall s, info_at (decision_points s) [] = None.
+Proof.
+  intros [es]. apply info_at_none. intros i Hi. unfold decision_points in Hi. simpl in Hi.
+  apply in_concat_mapi in Hi as (j & e & He & Hi). simpl in Hi. apply (proj2 dps_prefix_both) in Hi.
+  destruct Hi as [t Ht]. rewrite Ht. discriminate.
+Qed.
+
+Theorem to_dict_acts : forall q s sd vt b, wf s = true -> valid s sd = true -> vt <> VT_dna ->
+  bind q s (normalize sd) = Some b ->
+  to_dict (decision_points s) KT_id vt MC_subchoice false b = puts (decision_points s) KT_id vt (acts s [] sd) [].
+Proof.
+  intros q [es] [ds] vt b Hwf Hv Hvt Hb. unfold to_dict.
+  set (infos := decision_points (Space es)).
+  pose proof Hv as Hv0. simpl in Hwf, Hv. apply forallb2_Forall2 in Hv.
+  rewrite (shape_s es ds Hwf Hv) in Hb. unfold bind in Hb. pose proof (Forall2_len _ _ _ _ _ Hv) as Hl.
+  assert (Hel : forall j e, nth_error es j = Some e -> agree infos (dps_p e [j] []) [j]).
+  { intros j e He. eapply agree_trans; [apply root_agree | exists [j]; reflexivity |].
+    simpl. apply (agree_mapi _ (fun i e0 => dps_p e0 ([] ++ [i]) []) [] es 0 j e); auto.
+    intros i e0 He0 x Hx. simpl in *. eapply (proj2 dps_prefix_both); eauto. }
+  destruct es as [|e [|e2 es]]; destruct ds as [|x [|y r]]; simpl in Hl; try lia.
+  - simpl in Hb. inv Hb. reflexivity.
+  - inversion Hv as [|? ? ? ? He _]; subst. simpl in Hwf. rewrite andb_true_r in Hwf.
+    change (acts (Space [e]) [] (SSpace [x])) with (acts_p e [0] x ++ []). rewrite app_nil_r.
+    apply (proj2 (dump_both q infos KT_id vt Hvt) e Hwf x [0] b [] [] He Hb (Hel 0 e eq_refl)).
+  - cbn [Geno.dvalue dkids is_none] in Hb.
+    destruct (bind_all (fun i e0 c => bind_p q e0 [i] c) 0 (e :: e2 :: es) (map norm_p (x :: y :: r))) as [bs|] eqn:Ea; [|discriminate].
+    simpl in Hb. inv Hb. rewrite dump_unfold.
+    assert (E0 : info_at infos [] = None) by apply root_addr_none. rewrite E0.
+    apply (fold_bind_all _ _ (fun i e0 d => bind_p q e0 [i] d) norm_p (fun i e0 x0 => acts_p e0 ([] ++ [i]) x0)
+             (dump infos KT_id vt MC_subchoice) (puts infos KT_id vt) (puts_app infos KT_id vt) (fun d => eq_refl)
+             (e :: e2 :: es) (x :: y :: r) 0 bs [] Ea).
+    intros j e' x' b' d He' Hx' Hf. simpl in Hf.
+    rewrite forallb_forall in Hwf.
+    apply (proj2 (dump_both q infos KT_id vt Hvt) e' (Hwf e' (nth_error_In _ _ He')) x' [j] b' [] d); auto.
+    clear - Hv He' Hx'. revert j He' Hx'. induction Hv; intros [|j] He' Hx'; simpl in *; try discriminate.
+    inv He'; inv Hx'; auto. eapply IHHv; eauto.
+Qed.
+
+Lemma NoDup_map_inj : forall A B (f : A -> B) l x y, NoDup (map f l) -> In x l -> In y l -> f x = f y -> x = y.
+Proof.
+  induction l as [|a l IH]; intros x y Hn Hx Hy E. inv Hx. inv Hn. destruct Hx as [->|Hx], Hy as [->|Hy]; auto.
+  - exfalso. apply H1. rewrite E. apply in_map; auto.
+  - exfalso. apply H1. rewrite <- E. apply in_map; auto.
+Qed.
+Lemma NoDup_map_inj_on : forall A B C (f : A -> B) (g : A -> C) l,
+  NoDup (map f l) -> (forall x y, In x l -> In y l -> g x = g y -> f x = f y) -> NoDup (map g l).
+Proof.
+  induction l as [|a l IH]; intros Hn Hi; simpl. constructor. inv Hn. constructor.
+  - intros Hin. apply in_map_iff in Hin as [y [Ey Hy]]. apply H1.
+    rewrite (Hi a y); simpl; auto. apply in_map; auto.
+  - apply IH; auto. intros; apply Hi; simpl; auto.
+Qed.
+
+Theorem dict_roundtrip_id : forall q s sd vt b, wf s = true -> valid s sd = true -> vt <> VT_dna ->
+  ids_unique s -> (vt = VT_literal -> Forall lits_distinct (all_lits s)) ->
+  bind q s (normalize sd) = Some b ->
+  from_dict (ial_of vt) q s (to_dict (decision_points s) KT_id vt MC_subchoice false b) = Some b.
+Proof.
+  intros q s sd vt b Hwf Hv Hvt Hid Hl Hb.
+  rewrite (to_dict_acts q s sd vt b Hwf Hv Hvt Hb).
+  set (infos := decision_points s). set (L := acts s [] sd).
+  (* every active decision is stored under the id of its decision point *)
+  assert (Hk : forall e, In e L -> exists i, info_at infos (fst e) = Some i /\ In i infos /\ i_addr i = fst e /\
+                                   (forall c, snd e = AChoice c -> exists n lits, i_kind i = PKChoice n lits)).
+  { intros e He. apply (proj1 (acts_kinded_both infos) s Hwf sd [] [] e Hv (root_agree s) He). }
+  assert (Hput : forall e d, In e L -> put1 infos KT_id vt d e = dput d (key1 infos e) (leaf1 infos vt e)).
+  { intros [ea ev] d He. destruct (Hk _ He) as (i & Hi & _ & _ & Hc). unfold put1, key1, leaf1. cbn [fst snd] in *. rewrite Hi.
+    destruct ev; auto. destruct (Hc c eq_refl) as (n & lits & Ek). rewrite Ek. reflexivity. }
+  assert (Hfold : forall l d, (forall e, In e l -> In e L) ->
+            puts infos KT_id vt l d = fold_left (fun acc e0 => dput acc (fst e0) (snd e0)) (map (fun e => (key1 infos e, leaf1 infos vt e)) l) d).
+  { induction l as [|e l IHl]; intros d Hin; simpl; auto. unfold puts in *. simpl. rewrite Hput by (apply Hin; simpl; auto).
+    apply IHl. intros; apply Hin; simpl; auto. }
+  assert (Hnd : NoDup (map (key1 infos) L)).
+  { apply (NoDup_map_inj_on _ _ _ fst (key1 infos) L (proj1 acts_nodup_both s [] sd)).
+    intros x y Hx Hy E. destruct (Hk _ Hx) as (ix & Hix & Hinx & Hax & _). destruct (Hk _ Hy) as (iy & Hiy & Hiny & Hay & _).
+    unfold key1 in E. rewrite Hix, Hiy in E. inv E.
+    rewrite <- Hax, <- Hay. f_equal. eapply (NoDup_map_inj _ _ i_id infos); eauto. }
+  assert (Hcarry : carry infos vt (puts infos KT_id vt L []) L).
+  { intros e He. rewrite Hfold by auto.
+    apply (puts_distinct (map (fun e0 => (key1 infos e0, leaf1 infos vt e0)) L) []
+             ltac:(rewrite map_map; exact Hnd) ltac:(intros; reflexivity) (key1 infos e, leaf1 infos vt e)).
+    apply in_map_iff. exists e. auto. }
+  unfold from_dict.
+  rewrite (proj1 (readback_both infos vt Hvt) s Hwf sd [] [] _ Hv (root_agree s) Hcarry Hl).
+  exact Hb.
+Qed.
+
+(* non-vacuity of the hypotheses of dict_roundtrip_id *)
+Definition ex_dict_spec : dspec :=
+  Space [ Choices 2 [Space []; Space [Choices 1 [Space []; Space []] true false ([KName [120%N]], None) [LStr [117%N]; LStr [118%N]]]; Space []]
+            true false ([KName [97%N]], Some [109%N]) [LInt 10%Z; LInt 11%Z; LInt 12%Z];
+          FloatP 0%Z 64%Z ([KName [98%N]], None) ].
+Example ex_dict_hyps :
+  wf ex_dict_spec = true /\ ids_unique ex_dict_spec /\ Forall lits_distinct (all_lits ex_dict_spec).
+Proof.
+  split; [reflexivity|]. split.
+  - unfold ids_unique. vm_compute. repeat (constructor; [simpl; intuition discriminate|]). constructor.
+  - vm_compute. repeat constructor; intros i j li lj Hi Hj He;
+      repeat (destruct i as [|i]; simpl in Hi; try discriminate); repeat (destruct j as [|j]; simpl in Hj; try discriminate);
+      try reflexivity; inv Hi; inv Hj; simpl in He; discriminate.
+Qed.
